@@ -71,12 +71,7 @@ class Lock:
 
 def regenerate():
   from harness.translate import emit
-  rep = emit.run()
-  try:
-    from harness.translate import graph
-    rep["graph"] = graph.run()
-  except ImportError:
-    pass
+  rep = emit.run()   # runs the E3 extractor (graph.py) first: its alias table is an input of the kernel translation
   return rep
 
 
